@@ -71,6 +71,9 @@ func (v *Verifier) verifyFunc(key string) {
 		for _, pr := range fn.Params {
 			n := c.freshConst("p_"+pr.Name(), pr.Type())
 			c.assume(c.wfAt(pr.Type(), n, a0))
+			if it, ok := pr.Type().Underlying().(*types.Interface); ok && it.NumMethods() > 0 {
+				c.assume(c.wfIfaceRefs(n, a0))
+			}
 			x.vals[pr] = Val{T: pr.Type(), S: n}
 			x.params[pr.Name()] = x.vals[pr]
 		}
@@ -88,6 +91,7 @@ func (v *Verifier) verifyFunc(key string) {
 			}
 		}
 		x.entry = st.clone()
+		x.stableObligations(st)
 		env := &Env{x: x, c: c, st: st, old: st, vars: x.params, oldVars: x.params, free: x.freeVals, fn: fn, pos: fn.Pos()}
 		var reqs []string
 		for _, rq := range fc.Requires {
